@@ -118,3 +118,112 @@ func VerifC10Threads() {
 	vnd.Assert(vnd.HeldLocks() == 0, "C10.all-locks-released")
 	vnd.Cover("C10.end")
 }
+
+func init() {
+	verifEntries["VerifC10Collector"] = VerifC10Collector
+}
+
+// VerifC10Collector: the real graveyard worker (VM thread, virtual time) next to
+// an open write transaction. Three tables; one change iterator on a symbolic
+// table, optionally a deletion there (the only garbage); a writer then holds a
+// symbolic table open while the collector is woken (iterator catches up and/or
+// is closed) and given time to run. Transactions on every other table -
+// writes, creating and closing an iterator - must run to completion meanwhile
+// (a collector that sits on tables it does not need, waiting for the held
+// one, shows up as a deadlock of this thread), and afterwards everything is
+// granted and the graveyard drains.
+func VerifC10Collector() {
+	db := New(WithMetrics(&NopMetrics{}))
+	var tables [3]RWTable[*vobj]
+	for i, n := range []string{"t0", "t1", "t2"} {
+		t, err := NewTable[*vobj](db, n, vIDIndex)
+		if err != nil {
+			panic(err)
+		}
+		tables[i] = t
+		w := db.WriteTxn(t)
+		t.Insert(w, &vobj{id: []byte("a")})
+		t.Insert(w, &vobj{id: []byte("b")})
+		w.Commit()
+	}
+	db.Start()
+	const tick = int64(2_000_000_000)
+	ti := vnd.IntRange("itable", 0, 2)
+	w := db.WriteTxn(tables[ti])
+	it, err := tables[ti].Changes(w)
+	vnd.Assert(err == nil, "C10.collector.changes.err")
+	w.Commit()
+	expect := [3]int{2, 2, 2}
+	if vnd.Bool("delete") {
+		w := db.WriteTxn(tables[ti])
+		tables[ti].Delete(w, &vobj{id: []byte("a")})
+		w.Commit()
+		expect[ti]--
+		vnd.Cover("C10.collector.garbage")
+	}
+	h := vnd.IntRange("held", 0, 2)
+	wh := db.WriteTxn(tables[h])
+	tables[h].Insert(wh, &vobj{id: []byte("h")})
+	// wake the collector while the table is held
+	closed := false
+	switch vnd.IntRange("wake", 0, 2) {
+	case 0: // the iterator catches up (marks its delete tracker)
+		for k := 0; k < 2; k++ {
+			seq, _ := it.Next(db.ReadTxn())
+			for range seq {
+			}
+		}
+	case 1: // the iterator is closed (takes the iterator's table)
+		if ti == h {
+			vnd.Assume(false)
+		}
+		it.Close()
+		closed = true
+	case 2:
+	}
+	vnd.Sleep(tick)
+	vnd.Settle()
+	// everything not sharing the held table runs to completion
+	for i := range tables {
+		if i == h {
+			continue
+		}
+		w := db.WriteTxn(tables[i])
+		tables[i].Insert(w, &vobj{id: []byte("x")})
+		it2, err := tables[i].Changes(w)
+		vnd.Assert(err == nil, "C10.collector.changes2.err")
+		w.Commit()
+		expect[i]++
+		it2.Close()
+		vnd.Cover("C10.collector.other-table-granted")
+	}
+	rt := db.ReadTxn() // readers never wait
+	for i := range tables {
+		vnd.Assert(tables[i].NumObjects(rt) == expect[i], "C10.collector.reader-sees-committed")
+	}
+	wh.Commit()
+	expect[h]++
+	if !closed {
+		for k := 0; k < 2; k++ {
+			seq, _ := it.Next(db.ReadTxn())
+			for range seq {
+			}
+		}
+		it.Close()
+	}
+	for k := 0; k < 3; k++ {
+		vnd.Sleep(tick)
+	}
+	vnd.Settle()
+	rt = db.ReadTxn()
+	for i := range tables {
+		vnd.Assert(tables[i].NumObjects(rt) == expect[i], "C05.collector.no-lost-write")
+		vnd.Assert(tables[i].(*genTable[*vobj]).numDeletedObjects(rt) == 0, "C08.collector.drained")
+	}
+	// afterwards any transaction is granted
+	w = db.WriteTxn(tables[0], tables[1], tables[2])
+	w.Abort()
+	db.Stop()
+	vnd.Assert(vnd.HeldLocks() == 0, "C10.collector.all-locks-released")
+	vnd.Cover("C10.collector.end")
+}
